@@ -490,6 +490,12 @@ def plan(tier: str):
             k += 1
             for config, fmt in combos[k % 6::6]:
                 items.append(("g1", (ops, config, fmt), 3000, 0))
+        # a second recording in which one data set is still idle (its types have not come yet) when the first flush fires
+        for ops in (("early", "restart", "flush"), ("early", "restart", "subdiv"), ("early", "early", "restart", "flush"), ("flush", "early", "restart", "none"),
+                    ("early", "restart", "early", "flush")):
+            for config, fmt in combos:
+                if config.startswith("two") and ("g1", (ops, config, fmt), 3000, 0) not in items:
+                    items.append(("g1", (ops, config, fmt), 3000, 0))
     else:
         for ops in scripts(4):
             triggers = sum(1 for o in ops if o in ("flush", "subdiv", "none", "restart"))
